@@ -158,6 +158,9 @@ def _where(what, detail):
         if not names:
             return detail.split(':')[0][:40]
         return names[0] if len(names) == 1 or names[0].startswith('iter') else '%s/%s' % (names[0], names[-1])
+    if what == 'base':
+        m = re.search(r'\[([a-z_,]+)\]', detail)
+        return m.group(1) if m else 'changed'
     m = re.search(r'spec outcome (\S+), implementation (\w+)', detail)
     if m:
         return '%s->%s' % (m.group(1), m.group(2))
